@@ -6,6 +6,7 @@ package main
 import (
 	"fmt"
 	"regexp"
+	"sync"
 	"go/constant"
 	"go/token"
 	"go/types"
@@ -42,6 +43,7 @@ type Obl struct {
 	SkGoal string
 	Code   string
 	NDefs  int
+	Block  int
 	Where  string
 	Text   string
 	Fn     string
@@ -104,6 +106,9 @@ type Gen struct {
 	curCode    string
 	preAlloc   string
 	wfSeen     map[string]bool
+	defBlk     []int // block index in which each def was emitted (-1: before the first block)
+	ancCache   map[int]map[int]bool
+	ancMu      sync.Mutex
 	storeRecs  map[*ssa.BasicBlock]map[string][]storeRec // precise single-location stores per block and heap
 	imprecise  map[*ssa.BasicBlock]map[string]bool
 }
@@ -135,6 +140,51 @@ func (g *Gen) newConst(pfx, srt string) string {
 }
 
 func (g *Gen) assumeRaw(s string) { g.defs = append(g.defs, "(assert "+s+")") }
+
+// syncDefBlk tags the defs emitted since the last call with the current block.
+func (g *Gen) syncDefBlk() {
+	tag := -1
+	if g.curBlock != nil {
+		tag = g.curBlock.Index
+	}
+	for len(g.defBlk) < len(g.defs) {
+		g.defBlk = append(g.defBlk, tag)
+	}
+}
+
+// ancestors: blocks from which b is reachable along forward edges (back edges are cut), including b.
+func (g *Gen) ancestors(b int) map[int]bool {
+	g.ancMu.Lock()
+	defer g.ancMu.Unlock()
+	if g.ancCache == nil {
+		g.ancCache = map[int]map[int]bool{}
+	}
+	if a, ok := g.ancCache[b]; ok {
+		return a
+	}
+	a := map[int]bool{b: true}
+	var stack []*ssa.BasicBlock
+	for _, bb := range g.fn.Blocks {
+		if bb.Index == b {
+			stack = append(stack, bb)
+		}
+	}
+	for len(stack) > 0 {
+		x := stack[len(stack)-1]
+		stack = stack[:len(stack)-1]
+		for _, p := range x.Preds {
+			if x.Dominates(p) { // back edge
+				continue
+			}
+			if !a[p.Index] {
+				a[p.Index] = true
+				stack = append(stack, p)
+			}
+		}
+	}
+	g.ancCache[b] = a
+	return a
+}
 func (g *Gen) assume(s string) {
 	if s == "true" {
 		return
@@ -464,12 +514,12 @@ func (g *Gen) subref(structT types.Type, idx int, base string) string {
 	if _, ok := g.decl[fn]; !ok {
 		g.decl[fn] = "fun:(Int) Int"
 		g.dord = append(g.dord, fn)
-		g.defs = append(g.defs, fmt.Sprintf("(assert (forall ((r Int)) (! (=> (not (= r 0)) (not (= (%s r) 0))) :pattern ((%s r)))))", fn, fn))
+		g.preDefs = append(g.preDefs, fmt.Sprintf("(assert (forall ((r Int)) (! (=> (not (= r 0)) (not (= (%s r) 0))) :pattern ((%s r)))))", fn, fn))
 		// embedded objects are distinct from each other, from allocated objects and from slice elements
 		inv := "subinv" + strings.TrimPrefix(fn, "sub")
 		g.decl[inv] = "fun:(Int) Int"
 		g.dord = append(g.dord, inv)
-		g.defs = append(g.defs, fmt.Sprintf("(assert (forall ((r Int)) (! (and (= (%s (%s r)) r) (= (subtag (%s r)) %d) (= (rootof (%s r)) (rootof r))) :pattern ((%s r)))))", inv, fn, fn, g.P.typeID2("subref:"+fn), fn, fn))
+		g.preDefs = append(g.preDefs, fmt.Sprintf("(assert (forall ((r Int)) (! (and (= (%s (%s r)) r) (= (subtag (%s r)) %d) (= (rootof (%s r)) (rootof r))) :pattern ((%s r)))))", inv, fn, fn, g.P.typeID2("subref:"+fn), fn, fn))
 	}
 	return fmt.Sprintf("(%s %s)", fn, base)
 }
@@ -554,13 +604,13 @@ func (g *Gen) strLit(s string) string {
 	}
 	n := g.declare(fmt.Sprintf("lit!%d!%s", len(g.strlits), sanitize(truncate(s, 16))), "Str")
 	g.strlits[s] = n
-	g.assumeRaw(fmt.Sprintf("(= (len %s) %d)", n, len(s)))
+	g.preDefs = append(g.preDefs, fmt.Sprintf("(assert (= (len %s) %d))", n, len(s)))
 	if len(s) <= 64 {
 		var cs []string
 		for i := 0; i < len(s); i++ {
 			cs = append(cs, fmt.Sprintf("(= (at %s %d) %d)", n, i, s[i]))
 		}
-		g.assumeRaw(and(cs...))
+		g.preDefs = append(g.preDefs, "(assert "+and(cs...)+")")
 	}
 	return n
 }
@@ -801,7 +851,12 @@ func (g *Gen) oblige(kind, label, goal, where, text string, props []string) {
 	if len(props) == 0 && g.con != nil {
 		props = g.con.Props
 	}
-	g.obls = append(g.obls, &Obl{Name: name, Kind: kind, Label: label, Props: props, Hyp: g.curReach, Goal: goal, SkGoal: g.skolemizeGoal(goal), NDefs: len(g.defs), Where: where, Text: text, Fn: g.name, Code: g.curCode})
+	g.syncDefBlk()
+	blk := -1
+	if g.curBlock != nil {
+		blk = g.curBlock.Index
+	}
+	g.obls = append(g.obls, &Obl{Block: blk, Name: name, Kind: kind, Label: label, Props: props, Hyp: g.curReach, Goal: goal, SkGoal: g.skolemizeGoal(goal), NDefs: len(g.defs), Where: where, Text: text, Fn: g.name, Code: g.curCode})
 	g.assume(goal)
 }
 
